@@ -42,8 +42,8 @@ mod live {
             routing::{Addr, RouteId},
         },
         net::{
-            ClientIdentity, ConnectionFlavor, Helper, HttpTransport, IpaHttpClient, Shard,
-            test::{TestServer, TestServerBuilder, get_client_test_identity},
+            ClientIdentity, ConnectionFlavor, Helper, HttpTransport, IpaHttpClient, IpaHttpServer, Shard,
+            test::{TestConfig, TestServer, TestServerBuilder, get_client_test_identity},
         },
         protocol::{Gate, QueryId},
         sharding::{ShardIndex, ShardedHelperIdentity},
@@ -329,10 +329,17 @@ mod live {
         cases
     }
 
-    fn replay_case() -> Option<usize> {
+    fn replay_witness() -> Option<Value> {
         let p = vlib::env().replay?;
-        let w: Value = serde_json::from_str(&std::fs::read_to_string(p).ok()?).ok()?;
-        w["witness"]["case"].as_u64().map(|v| v as usize)
+        serde_json::from_str(&std::fs::read_to_string(p).ok()?).ok()
+    }
+    fn replay_case() -> Option<usize> {
+        replay_witness()?["witness"]["case"].as_u64().map(|v| v as usize)
+    }
+    /// start modes to run: both, or the one named in the witness being replayed
+    fn starts() -> Vec<Start> {
+        let only = replay_witness().and_then(|w| w["witness"]["start"].as_str().map(String::from));
+        Start::ALL.into_iter().filter(|s| only.as_deref().is_none_or(|o| o == s.name())).collect()
     }
 
     // -----------------------------------------------------------------------------------------
@@ -379,7 +386,31 @@ mod live {
         IpaHttpClient::new(IpaRuntime::current(), &ClientConfig::default(), peer, id)
     }
 
+    /// How the listening socket of the servers under test came to be: `IpaHttpServer::start_on` has one arm per
+    /// (disable_https, listener) combination. `TestServer` always hands over a pre-bound listener; a deployed helper
+    /// passes `None` and lets the server bind `config.port` (here: `None` = a port chosen by the kernel).
+    #[derive(Clone, Copy, PartialEq, Eq, Hash, Debug, PartialOrd, Ord)]
+    enum Start {
+        PreBound,
+        SelfBound,
+    }
+    impl Start {
+        const ALL: [Start; 2] = [Start::PreBound, Start::SelfBound];
+        fn name(self) -> &'static str {
+            match self {
+                Start::PreBound => "listener-some",
+                Start::SelfBound => "listener-none",
+            }
+        }
+    }
+
     struct World {
+        start: Start,
+        /// port of the server that the loopback requests go to, per (server, tls)
+        ports: BTreeMap<(Srv, bool), u16>,
+        // servers started with `listener = None` (they share transport + request handler with the TestServer of the same kind)
+        _own_h: Vec<IpaHttpServer<Helper>>,
+        _own_s: Vec<IpaHttpServer<Shard>>,
         mpc_tls: TestServer<Helper>,
         mpc_plain: TestServer<Helper>,
         shard_tls: TestServer<Shard>,
@@ -401,7 +432,7 @@ mod live {
     const FOREIGN_FOR_SHARD: usize = 1;
 
     impl World {
-        async fn new() -> World {
+        async fn new(start: Start) -> World {
             let mut logs = BTreeMap::new();
             let mut hh = Vec::new();
             let mut hs = Vec::new();
@@ -424,10 +455,44 @@ mod live {
             let mpc_plain = TestServer::builder().disable_https().with_request_handler(mk_h(false, &mut hh)).build().await;
             let shard_tls = TestServerBuilder::<Shard>::default().with_request_handler(mk_s(true, &mut hs)).build().await;
             let shard_plain = TestServerBuilder::<Shard>::default().disable_https().with_request_handler(mk_s(false, &mut hs)).build().await;
+            let mut ports = BTreeMap::new();
+            ports.insert((Srv::Mpc, true), mpc_tls.addr.port());
+            ports.insert((Srv::Mpc, false), mpc_plain.addr.port());
+            ports.insert((Srv::Shard, true), shard_tls.addr.port());
+            ports.insert((Srv::Shard, false), shard_plain.addr.port());
+            let mut own_h = Vec::new();
+            let mut own_s = Vec::new();
+            if start == Start::SelfBound {
+                // Second server per kind on the same transport (same request handler, same record streams), built from
+                // the repository's own test configuration but with `port: None`, started the way bin/helper.rs does it:
+                // no listener, the server binds by itself.
+                for tls in [true, false] {
+                    let tc = TestConfig::builder().with_disable_https_option(!tls).build();
+                    let ring = tc.rings.first().unwrap();
+                    let mut cfg = ring.servers[0].config.clone();
+                    assert_eq!(cfg.disable_https, !tls);
+                    cfg.port = None;
+                    let t = if tls { &mpc_tls.transport } else { &mpc_plain.transport };
+                    let server = IpaHttpServer::new_mpc(Arc::clone(t), cfg, ring.network.clone());
+                    let (addr, _join) = server.start_on(&IpaRuntime::current(), None, ()).await;
+                    ports.insert((Srv::Mpc, tls), addr.port());
+                    own_h.push(server);
+
+                    let net = &tc.shards[0];
+                    let mut cfg = net.servers[0].config.clone();
+                    assert_eq!(cfg.disable_https, !tls);
+                    cfg.port = None;
+                    let t = if tls { &shard_tls.transport } else { &shard_plain.transport };
+                    let server = IpaHttpServer::new_shards(Arc::clone(t), cfg, net.network.clone());
+                    let (addr, _join) = server.start_on(&IpaRuntime::current(), None, ()).await;
+                    ports.insert((Srv::Shard, tls), addr.port());
+                    own_s.push(server);
+                }
+            }
             let mut clients = BTreeMap::new();
             for (srv, port_tls, port_plain, certs, foreign) in [
-                (Srv::Mpc, mpc_tls.addr.port(), mpc_plain.addr.port(), MPC_CERTS, FOREIGN_FOR_MPC),
-                (Srv::Shard, shard_tls.addr.port(), shard_plain.addr.port(), SHARD_CERTS, FOREIGN_FOR_SHARD),
+                (Srv::Mpc, ports[&(Srv::Mpc, true)], ports[&(Srv::Mpc, false)], MPC_CERTS, FOREIGN_FOR_MPC),
+                (Srv::Shard, ports[&(Srv::Shard, true)], ports[&(Srv::Shard, false)], SHARD_CERTS, FOREIGN_FOR_SHARD),
             ] {
                 clients.insert((srv, true, "none"), client(port_tls, true, ClientIdentity::None));
                 for (label, k) in certs {
@@ -436,16 +501,11 @@ mod live {
                 clients.insert((srv, true, "cert-foreign"), client(port_tls, true, cert_identity(foreign)));
                 clients.insert((srv, false, "none"), client(port_plain, false, ClientIdentity::None));
             }
-            World { mpc_tls, mpc_plain, shard_tls, shard_plain, logs, clients, _handlers_h: hh, _handlers_s: hs, uniq: AtomicU64::new(0) }
+            World { start, ports, _own_h: own_h, _own_s: own_s, mpc_tls, mpc_plain, shard_tls, shard_plain, logs, clients, _handlers_h: hh, _handlers_s: hs, uniq: AtomicU64::new(0) }
         }
 
         fn port(&self, srv: Srv, tls: bool) -> u16 {
-            match (srv, tls) {
-                (Srv::Mpc, true) => self.mpc_tls.addr.port(),
-                (Srv::Mpc, false) => self.mpc_plain.addr.port(),
-                (Srv::Shard, true) => self.shard_tls.addr.port(),
-                (Srv::Shard, false) => self.shard_plain.addr.port(),
-            }
+            self.ports[&(srv, tls)]
         }
 
         fn next_uniq(&self) -> u64 {
@@ -607,6 +667,7 @@ mod live {
     struct Judge<'a> {
         rec: &'a mut Recorder,
         io_errors: u64,
+        start: Start,
     }
 
     impl Judge<'_> {
@@ -620,15 +681,20 @@ mod live {
             self.rec.eval();
             self.rec.seen("status_classes", format!("{}/{mode}/{kind}/{}", srv.name(), o.class()));
             let witness = json!({"case": case.idx, "server": srv.name(), "method": case.method, "template": tp, "variant": case.variant.label,
-                "mode": mode, "header": hdr, "query": case.variant.query, "body_kind": case.variant.body,
+                "mode": mode, "start": self.start.name(), "header": hdr, "query": case.variant.query, "body_kind": case.variant.body,
                 "scanner": {"handler_modules": case.tmpl.names, "mounted_by": case.tmpl.routers, "registered_methods": case.tmpl.registered},
                 "outcome": o.json(), "reference_with_verified_cert": reference.json(), "baseline": baseline.map(Outcome::json)});
-            let sig = |what: &str, o: &Outcome| json!({"kind": what, "server": srv.name(), "method": case.method, "template": tp, "mode": mode, "status": o.status});
+            let start = self.start;
+            let sig = |what: &str, o: &Outcome| json!({"kind": what, "server": srv.name(), "method": case.method, "template": tp, "mode": mode, "start": start.name(), "status": o.status});
+            if o.status.is_some() && !mode.starts_with("inproc") {
+                // which arm of `start_on` produced the listener that answered
+                self.rec.seen("start_modes", format!("{}/{}/{}", srv.name(), if mode.starts_with("tls") { "https" } else { "http" }, start.name()));
+            }
             let Some(st) = o.status else {
                 if ident == Ident::Foreign {
                     self.rec.count("foreign_cert_rejected_at_tls");
                     self.rec.seen("foreign_cert_errors", o.err.clone().unwrap_or_default().chars().filter(|c| !c.is_ascii_digit()).take(110).collect::<String>());
-                    self.rec.distinct(&(srv, case.method, tp, &case.variant.label, mode));
+                    self.rec.distinct(&(srv, case.method, tp, &case.variant.label, mode, start));
                 } else if o.err.as_deref().is_some_and(|e| e.starts_with("uri:") || e.starts_with("request:")) {
                     self.rec.count("variant_rejected_by_http_client");
                 } else {
@@ -703,7 +769,10 @@ mod live {
                 }
             }
             if ok {
-                self.rec.distinct(&(srv, case.method, tp, &case.variant.label, mode, hdr));
+                self.rec.distinct(&(srv, case.method, tp, &case.variant.label, mode, hdr, start));
+                if start == Start::SelfBound {
+                    self.rec.count("judged_ok_on_self_bound_listener");
+                }
                 self.rec.count(if allow { "allowed_ok" } else if exists { "protected_existing_ok" } else { "protected_absent_ok" });
                 if !allow && exists && matches!(ident, Ident::Unverified) && st == 401 {
                     self.rec.seen("protected_routes", format!("{} {} {}", srv.name(), case.method, tp));
@@ -767,10 +836,10 @@ mod live {
         Some(Setup { env, inv, cases, only: replay_case() })
     }
 
-    fn sample(rec: &mut Recorder, case: &Case, mode: &str, r: &Outcome, o: &Outcome) {
+    fn sample(rec: &mut Recorder, start: Start, case: &Case, mode: &str, r: &Outcome, o: &Outcome) {
         if rec.want_sample() && case.idx % 37 == 5 {
             rec.sample(json!({"case": case.idx, "server": case.tmpl.srv.name(), "method": case.method, "template": case.tmpl.full,
-                "variant": case.variant.label, "path": o.path.chars().take(120).collect::<String>(), "mode": mode, "status": o.status,
+                "variant": case.variant.label, "path": o.path.chars().take(120).collect::<String>(), "mode": mode, "start": start.name(), "status": o.status,
                 "status_with_verified_cert": r.status}));
         }
     }
@@ -783,9 +852,10 @@ mod live {
     fn verif_c20_inproc() {
         let mut rec = Recorder::new("C20", "verif_c20_inproc");
         let Some(s) = setup(&mut rec) else { return rec.finish() };
-        run(async {
-            let w = World::new().await;
-            let mut j = Judge { rec: &mut rec, io_errors: 0 };
+        // handle_req does not involve a listener: one world is enough
+        for start in [Start::PreBound] { run(async {
+            let w = World::new(start).await;
+            let mut j = Judge { rec: &mut rec, io_errors: 0, start };
             for case in &s.cases {
                 if !s.env.mine(case.idx) || s.only.is_some_and(|c| c != case.idx) {
                     continue;
@@ -797,7 +867,7 @@ mod live {
                     let mode = if tls_obj { "inproc-tlscfg" } else { "inproc-plaincfg" };
                     let base = send(&w, srv, Via::InProc(tls_obj), case.method, &case.variant, &[]).await;
                     j.check(case, mode, Ident::Unverified, &r, None, &base, None);
-                    sample(j.rec, case, mode, &r, &base);
+                    sample(j.rec, j.start, case, mode, &r, &base);
                     // the header is only interpreted by a layer that start_on adds for plain-HTTP listeners: the bare
                     // router must ignore it
                     let hv = spoof_values(srv)[case.idx % spoof_values(srv).len()];
@@ -809,7 +879,7 @@ mod live {
                     break;
                 }
             }
-        });
+        }); }
         rec.finish();
     }
 
@@ -821,9 +891,9 @@ mod live {
     fn verif_c20_tls() {
         let mut rec = Recorder::new("C20", "verif_c20_tls");
         let Some(s) = setup(&mut rec) else { return rec.finish() };
-        run(async {
-            let w = World::new().await;
-            let mut j = Judge { rec: &mut rec, io_errors: 0 };
+        for start in starts() { run(async {
+            let w = World::new(start).await;
+            let mut j = Judge { rec: &mut rec, io_errors: 0, start };
             for case in &s.cases {
                 if !s.env.mine(case.idx) || s.only.is_some_and(|c| c != case.idx) {
                     continue;
@@ -835,7 +905,7 @@ mod live {
                 // no client certificate
                 let base = send(&w, srv, Via::Net(true, "none"), case.method, &case.variant, &[]).await;
                 j.check(case, "tls-nocert", Ident::Unverified, &r, None, &base, None);
-                sample(j.rec, case, "tls-nocert", &r, &base);
+                sample(j.rec, j.start, case, "tls-nocert", &r, &base);
                 // no client certificate + spoofed header (every peer name, a malformed one, and the *other* flavour's header)
                 let mut spoof: Vec<(&str, &str)> = spoof_values(srv).iter().map(|v| (hdr, *v)).collect();
                 spoof.push((hdr, "H1; DROP"));
@@ -877,7 +947,7 @@ mod live {
                     break;
                 }
             }
-        });
+        }); }
         rec.finish();
     }
 
@@ -889,9 +959,9 @@ mod live {
     fn verif_c20_plain() {
         let mut rec = Recorder::new("C20", "verif_c20_plain");
         let Some(s) = setup(&mut rec) else { return rec.finish() };
-        run(async {
-            let w = World::new().await;
-            let mut j = Judge { rec: &mut rec, io_errors: 0 };
+        for start in starts() { run(async {
+            let w = World::new(start).await;
+            let mut j = Judge { rec: &mut rec, io_errors: 0, start };
             for case in &s.cases {
                 if !s.env.mine(case.idx) || s.only.is_some_and(|c| c != case.idx) {
                     continue;
@@ -902,7 +972,7 @@ mod live {
                 let hdr = id_header(srv);
                 let base = send(&w, srv, Via::Net(false, "none"), case.method, &case.variant, &[]).await;
                 j.check(case, "plain-noheader", Ident::Unverified, &r, None, &base, None);
-                sample(j.rec, case, "plain-noheader", &r, &base);
+                sample(j.rec, j.start, case, "plain-noheader", &r, &base);
                 for (k, hv) in spoof_values(srv).iter().enumerate() {
                     if !s.env.thorough && k != case.idx % spoof_values(srv).len() {
                         continue;
@@ -921,7 +991,7 @@ mod live {
                     break;
                 }
             }
-        });
+        }); }
         rec.finish();
     }
 
@@ -1000,8 +1070,8 @@ mod live {
             plans.push((t.clone(), B { tls: false, client: "none", verified: None, claim: None }));
         }
         let rounds = s.env.pick(1, 12);
-        run(async {
-            let w = World::new().await;
+        for start in starts() { run(async {
+            let w = World::new(start).await;
             let mut idx = 0usize;
             for round in 0..rounds {
                 for (t, b) in &plans {
@@ -1034,6 +1104,7 @@ mod live {
                     rec.eval();
                     let mode = format!("{}{}{}", if b.tls { "tls" } else { "plain" }, if b.client == "none" { "-nocert" } else { "-cert" }, if b.claim.is_some() { "+header" } else { "" });
                     rec.seen("status_classes", format!("{}/bind-{mode}/protected/{status}", srv.name()));
+                    rec.seen("start_modes", format!("{}/{}/{}", srv.name(), if b.tls { "https" } else { "http" }, start.name()));
                     rec.seen("routes", format!("{} {}", srv.name(), t.full));
                     // where did the stream end up? the verified identity first (generous wait for the bytes), then everybody
                     // else (an identity that holds nothing stays pending; short wait)
@@ -1054,9 +1125,9 @@ mod live {
                             None => {}
                         }
                     }
-                    let witness = json!({"case": case_idx, "round": round, "server": srv.name(), "template": t.full, "tls": b.tls, "client": b.client,
+                    let witness = json!({"case": case_idx, "round": round, "start": start.name(), "server": srv.name(), "template": t.full, "tls": b.tls, "client": b.client,
                         "verified_identity": b.verified, "header_claim": b.claim, "gate": gate, "status": status, "stream_filed_under": filed});
-                    let sig = |k: &str| json!({"kind": k, "server": srv.name(), "method": "POST", "template": t.full, "mode": mode, "status": status});
+                    let sig = |k: &str| json!({"kind": k, "server": srv.name(), "method": "POST", "template": t.full, "mode": mode, "start": start.name(), "status": status});
                     match b.verified {
                         None => {
                             if status != 401 {
@@ -1065,7 +1136,10 @@ mod live {
                                 rec.violation("record stream accepted from a caller without a verified identity", sig("stream_filed_unverified"), witness);
                             } else {
                                 rec.count("binding_refused_ok");
-                                rec.distinct(&(srv, &t.full, &mode, b.claim, "refused"));
+                                if start == Start::SelfBound {
+                                    rec.count("binding_refused_ok_on_self_bound_listener");
+                                }
+                                rec.distinct(&(srv, &t.full, &mode, b.claim, "refused", start));
                             }
                         }
                         Some(v) => {
@@ -1079,15 +1153,18 @@ mod live {
                                 rec.inconclusive(format!("record stream registered but its bytes did not arrive as sent ({} {mode})", srv.name()));
                             } else if filed == vec![v.to_string()] {
                                 rec.count("binding_ok");
-                                rec.distinct(&(srv, &t.full, &mode, b.client, b.claim));
+                                rec.distinct(&(srv, &t.full, &mode, b.client, b.claim, start));
+                                if start == Start::SelfBound {
+                                    rec.count("binding_ok_on_self_bound_listener");
+                                }
                                 if rec.want_sample() {
-                                    rec.sample(json!({"case": case_idx, "server": srv.name(), "mode": mode, "client": b.client, "header_claim": b.claim,
+                                    rec.sample(json!({"case": case_idx, "server": srv.name(), "mode": mode, "start": start.name(), "client": b.client, "header_claim": b.claim,
                                         "status": status, "stream_filed_under": filed}));
                                 }
                             } else if (200..300).contains(&status) {
                                 rec.violation(
                                     "record stream filed under an identity other than the verified one",
-                                    json!({"kind": "stream_misfiled", "server": srv.name(), "method": "POST", "template": t.full, "mode": mode,
+                                    json!({"kind": "stream_misfiled", "server": srv.name(), "method": "POST", "template": t.full, "mode": mode, "start": start.name(),
                                         "claimed": b.claim.is_some(), "filed_under_claim": b.claim.is_some_and(|c| filed.iter().any(|f| f == c))}),
                                     witness,
                                 );
@@ -1098,7 +1175,7 @@ mod live {
                     }
                 }
             }
-        });
+        }); }
         rec.finish();
     }
 
@@ -1129,9 +1206,9 @@ mod live {
                 rec.note(format!("allow-list entry {} {m} {t} was not discovered by the scanner", srv.name()));
             }
         }
-        run(async {
-            let w = World::new().await;
-            let mut j = Judge { rec: &mut rec, io_errors: 0 };
+        for start in starts() { run(async {
+            let w = World::new(start).await;
+            let mut j = Judge { rec: &mut rec, io_errors: 0, start };
             let canon = |t: &Tmpl| Variant { label: "canonical".into(), path: instantiate(&t.full, "0", "0", GATES[0]), query: QUERY_OK.into(), body: 1 };
             // 1. every attributed (server, method, template) exists on that server
             for t in &tmpls {
@@ -1193,7 +1270,7 @@ mod live {
                     }
                 }
             }
-        });
+        }); }
         rec.finish();
     }
 }
